@@ -8,6 +8,7 @@ from ..common import cfg_str
 
 PROP = "C06"
 LEVEL = "exploration"
+BLOCK = 4
 USES_ORACLES = True
 RULE = ("every (n, s) of the grid and seeded random larger n; each case runs "
         "MixedCheckpointSchedule with storage=RAM and storage=DISK through "
@@ -36,6 +37,11 @@ def cases(tier, seed):
     for n in (2, 3, 5, 9):
         out.append({"n": n, "s": n + 4})      # more units than steps
         out.append({"n": n, "s": n - 1})
+    # sizes around powers of two (table growth / buffer boundaries)
+    for n in (127, 128, 129, 255, 256, 257, 258, 259, 260, 300) + \
+            ((511, 512, 513, 600) if th else ()):
+        for s in (2, 3, 8):
+            out.append({"n": n, "s": s})
     for _ in range(900 if th else 30):
         n = int(2 + rng.random() ** 2 * ((1000 if th else 260) - 2))
         out.append({"n": n, "s": rng.choice([1, 2, 3, 4, 6, 9, 13,
